@@ -573,7 +573,9 @@ fn c06_codec<C: Oracle>(rep: &mut Report, steps: usize, rng: &mut Rng) {
             5 => {
                 let a = rng.below(n + 1);
                 let b = a + rng.below(n - a + 1);
-                match rng.below(6) {
+                match rng.below(8) {
+                    6 if a > 0 => { use std::ops::Bound::*; seq.remove((Excluded(a - 1), Excluded(b))) }
+                    7 if a > 0 && b > a => { use std::ops::Bound::*; seq.remove((Excluded(a - 1), Included(b - 1))) }
                     0 => seq.remove(a..b),
                     1 if b > a => seq.remove(a..=b - 1),
                     2 => { seq.remove(..b); model.drain(..b); hist.push_str("remove..b;"); continue_check(rep, &seq, &model, &hist); continue; }
